@@ -48,7 +48,7 @@ RL_MC_WITNESS["thorough"] = RL_MC_WITNESS["quick"] + ["Resolve:ok", "NetFlowOffs
 
 def rl_mc_constants(tier):
     if tier == "quick":
-        return dict(HOUR=4, PATHS={"N/AB"}, AMTS={40, 41}, QSS={2}, QRS={2}, DURS={1}, DTS={1, 3}, BDTS={1, 3},
+        return dict(HOUR=4, PATHS={"N/AB"}, AMTS={40, 41}, QSS={2}, QRS={2}, DURS={1}, DTS={1}, BDTS={3},
                     FATES_OUT={"ok", "err", "to"}, FATES_IN={"ok", "err", "ferr"}, SEND_CH={"AB"}, MaxPk=2, MaxT=7,
                     SUPN=4000, SUPV=1000)
     return dict(HOUR=4, PATHS={"N/AB", "V/AB"}, AMTS={40, 41}, QSS={2}, QRS={2, 5}, DURS={1, 2}, DTS={1, 3}, BDTS={1, 3},
@@ -67,7 +67,7 @@ def rl_sched_constants(tier, depth, outdir, excl):
 
 def sizes(tier):
     if tier == "quick":
-        return dict(rl_n=24, rl_depth=28, pfm_n=14, pfm_depth=24, denom_chunk=9, shards=12)
+        return dict(rl_n=18, rl_depth=26, pfm_n=10, pfm_depth=22, denom_chunk=9, shards=12)
     return dict(rl_n=400, rl_depth=45, pfm_n=300, pfm_depth=36, denom_chunk=6, shards=16)
 
 
@@ -525,13 +525,16 @@ def run_family(tier, seed, binary=None):
             result["mc"][name] = fn(tier, d)
         finally:
             shutil.rmtree(d, ignore_errors=True)
-    scheds = {}
-    threads = [guarded(lambda: mc_one("RateLimit", run_mc_rl)),
-               guarded(lambda: mc_one("PFM", run_mc_pfm)),
-               guarded(lambda: mc_one("RLDenom", run_mc_denom)),
-               guarded(lambda: scheds.__setitem__("RL", gen_rl(tier, seed, workdir, excl["C41"]))),
-               guarded(lambda: scheds.__setitem__("PFM", gen_pfm(tier, seed, workdir))),
-               guarded(lambda: scheds.__setitem__("DENOM", gen_denom(tier, seed, workdir, excl["C42"])))]
+    # self-tests (mutants) may restrict the run to one specification: VERIF_TMW_ONLY=RL|DENOM|PFM (never set by the
+    # registered commands; the vacuity floors of the other properties then fail, as they should)
+    only = os.environ.get("VERIF_TMW_ONLY", "")
+    scheds = {"RL": [], "PFM": [], "DENOM": []}
+    threads = [guarded(lambda: mc_one("RateLimit", run_mc_rl) if only in ("", "RL") else None),
+               guarded(lambda: mc_one("PFM", run_mc_pfm) if only in ("", "PFM") else None),
+               guarded(lambda: mc_one("RLDenom", run_mc_denom) if only in ("", "DENOM") else None),
+               guarded(lambda: scheds.__setitem__("RL", gen_rl(tier, seed, workdir, excl["C41"])) if only in ("", "RL") else None),
+               guarded(lambda: scheds.__setitem__("PFM", gen_pfm(tier, seed, workdir)) if only in ("", "PFM") else None),
+               guarded(lambda: scheds.__setitem__("DENOM", gen_denom(tier, seed, workdir, excl["C42"])) if only in ("", "DENOM") else None)]
     if binary is None:
         binary = vk.build_harness("transfermw")
     for th in threads[3:]:
